@@ -182,7 +182,7 @@ def finish(prop, tier, seed, results, listing_errors, t0, quiet, repo):
                 samples.append({"obligation": ident, "paths": c["paths"], "backends": c["backends"]})
 
     # native replay of every refuted clause
-    reqs = [{"module": r["module"], "name": r["name"], "inputs": c["failed"][0]["model"]} for r, c in failed]
+    reqs = [{"module": r["module"], "name": r["name"], "inputs": c["failed"][0]["model"], "label": c["label"]} for r, c in failed]
     answers = native_batch(reqs, repo) if reqs else []
     violations = []
     known_lines = []
@@ -197,7 +197,8 @@ def finish(prop, tier, seed, results, listing_errors, t0, quiet, repo):
             confirmed = True  # the harness blew up natively before reaching the clause
         rp = os.path.join("out", "replay", prop, slug(ident) + ".json")
         doc = {"property": prop, "module": r["module"], "obligation": r["name"], "clause": c["label"],
-               "inputs": c["failed"][0]["model"], "solver": c["failed"][0].get("backend"),
+               "inputs": ans.get("repaired_inputs") or c["failed"][0]["model"], "solver_model": c["failed"][0]["model"],
+               "solver": c["failed"][0].get("backend"),
                "confirmed_on_real_code": bool(confirmed), "native": ans,
                "reproduce": f"{NATIVE_PY} helper/native.py replay {rp}"}
         if not confirmed:
